@@ -17,5 +17,15 @@ PROPS['C01'] = {
             '__pow__/__ipow__ for exponents -4..8 only (bounded-in: exponent)',
     'technique': 'contract-based deductive verification: VC generation by symbolic execution of the real source (ast) against sidecar contracts, z3/sympy/cvc5',
 }
+PROPS['C04'] = {
+    'level': 'proof',
+    'text': 'Deductive: the 9 operator-expression classes are instantiated through their real __init__ with abstract operands (arbitrary maps '
+            'app(A,.), linear or not, space- or field-valued) and the real _call (both call forms) is proved equal to the table semantics; '
+            'every Operator arithmetic overload (incl. the OperatorRightScalarMult.__mul__ override and scalar merging) is proved to return an operator '
+            'whose semantics equals the table for all v; domain/range/linearity as implied. Arbitrary depth by structural induction over contracts.',
+    'note': 'trusted: pyvc interpreter, contract of Operator.__new__ dispatch (checked natively in C03), contracts of element/space arithmetic (C01) and '
+            'Operator.__call__ (C03); A ** n unrolled for n <= 6 (bounded-in: n); Functional overloads are in C09',
+    'technique': 'contract-based deductive verification: symbolic execution of the real source against sidecar contracts, structural induction over operator expressions, z3',
+}
 for _k in PROPS:
     NOT_APPLICABLE.pop(_k, None)
